@@ -68,6 +68,8 @@ func runC10(c *eng.Ctx) {
 	ruleReplacedWatermarkSegmentReinitialises(c)
 	c.Rule("R03.7", "K1")
 	ruleReadonlyVerdictIsRechecked(c)
+	c.Rule("R08.9", "K3")
+	ruleCompactedSegmentsArePublishedAsTheyAreReplaced(c)
 	c.Rule("R09.9", "K5")
 	ruleReadPathSkipsDeletedSegments(c)
 	p := c.P
